@@ -36,6 +36,7 @@ PROP_MODULES = {
     "C18": ["contracts.c18"],
     "C13": ["contracts.c13"],
     "C02": ["contracts.c02"],
+    "C19": ["contracts.c19"],
 }
 
 
